@@ -13,7 +13,7 @@ TECHNIQUE = "runtime monitoring: metamorphic (covariance) oracle + direct congru
 RULE = ("cases = norb 2..6 x 1-4 Cholesky matrices x spin-dependent h1 x (invertible C for the congruence | orthogonal C for covariance) x "
         "trial kind (rhf, uhf, ghf, noci) x sector x complex walkers; non-trivial = C not a permutation/identity and |overlap| >= 0.05 for "
         "the measurement clauses")
-MIN_NONTRIVIAL = {"quick": 60, "thorough": 600}
+MIN_NONTRIVIAL = {"quick": 50, "thorough": 400}
 TIMEOUT = {"quick": 900, "thorough": 3600}
 ASSUMPTIONS = ["real rotation matrices", "symmetric Cholesky matrices are NOT assumed for the congruence clause (a transposed index must show)"]
 REQUIRED_COUNTERS = {"congruence": 30, "covariance": 30}
